@@ -35,3 +35,13 @@ CASES += [
     {"name": "self.side again (the repaired defect)", "kind": "mutant", "rule": "C12-A", "edits": [
         ("quantarhei/spectroscopy/diagramatics.py", "        return self.sides[n], self.transitions[n]", "        return self.side[n], self.transitions[n]", 1)]},
 ]
+
+ASP = "quantarhei/builders/aggregate_spectroscopy.py"
+CASES += [
+    {"name": "R2g takes its t3 width from the other exciton of the pair", "kind": "mutant", "rule": "C12-E", "edits": [
+        (ASP, "self.get_transition_width((i3d, i4g))", "self.get_transition_width((i2d, i4g))", 1)]},
+    {"name": "R3g second interaction acts on the ket", "kind": "mutant", "rule": "C12-E", "edits": [
+        (ASP, "                                        lp.add_transition((i3g,i2e),-1)", "                                        lp.add_transition((i3g,i2e),+1)", 2)]},
+    {"name": "first-interval width looked up with the pair reversed", "kind": "twin", "edits": [
+        (ASP, "                                        self.get_transition_width((i2e, i1g))", "                                        self.get_transition_width((i1g, i2e))", 2)]},
+]
